@@ -314,4 +314,252 @@ theorem C16_cex_update_stale_index_panics :
     v2.ring.getHostByIP 7 = (none, true) ∧ (v2.nodeDown env 7).crashed = true ∧ (v2.nodeUp env 7).crashed = true := by
   decide
 
+/-! ### a node reported down is not offered until it is connected again -/
+
+/-- what the query executor needs to use a host: the policy offers it (`Pick` iterates the policy's
+lists), its state is up (`roundRobbin` / the executor skip hosts that are not `IsUp()`), it has a pool -/
+def offered (v : View) (h : RHost) : Prop := h ∈ v.pol.all ∧ h.obj ∉ v.down ∧ hasKey v.pools h.id = true
+
+/-- the op is `handleNodeConnected` for the object `o` -/
+def connects (v : View) (o : Nat) : VOp → Prop
+  | .connected id => ∃ h, lookup v.pools id = some h ∧ h.obj = o
+  | _ => False
+
+/-- along the run no connect of object `o` succeeds -/
+def NoConnect (env : Env) (o : Nat) : View → List VOp → Prop
+  | _, [] => True
+  | v, op :: t => ¬ connects v o op ∧ NoConnect env o (applyV env v op) t
+
+theorem down_nodeUp (env : Env) (v : View) (a : Nat) : (v.nodeUp env a).down = v.down := by
+  unfold View.nodeUp
+  split
+  · rfl
+  · rfl
+  · split <;> rfl
+
+theorem down_nodeDown (env : Env) (v : View) (a o : Nat) (ho : o ∈ v.down) : o ∈ (v.nodeDown env a).down := by
+  unfold View.nodeDown
+  split
+  · exact ho
+  · exact ho
+  · rename_i h _
+    have : o ∈ h.obj :: v.down.filter (· != h.obj) := by
+      by_cases e : o = h.obj
+      · rw [e]; exact List.mem_cons_self
+      · exact List.mem_cons_of_mem _ (List.mem_filter.mpr ⟨ho, by simpa using e⟩)
+    dsimp only
+    split <;> exact this
+
+theorem down_status (env : Env) (v : View) (e : Nat × Change) (o : Nat) (ho : o ∈ v.down) : o ∈ (v.status env e).down := by
+  unfold View.status
+  split
+  · exact ho
+  · split
+    · rw [down_nodeUp]; exact ho
+    · exact down_nodeDown env v e.1 o ho
+    · exact ho
+
+theorem down_foldl_status (env : Env) (evs : List (Nat × Change)) (o : Nat) : ∀ (v : View), o ∈ v.down →
+    o ∈ (evs.foldl (View.status env) v).down := by
+  induction evs with
+  | nil => intro v ho; exact ho
+  | cons e t ih => intro v ho; exact ih _ (down_status env v e o ho)
+
+theorem down_applyV (env : Env) (v : View) (op : VOp) (o : Nat) (ho : o ∈ v.down) (hc : ¬ connects v o op) :
+    o ∈ (applyV env v op).down := by
+  cases op with
+  | batch b =>
+    simp only [applyV, View.handleBatch, View.dispatch]
+    have h1 : o ∈ (if (hasTopology b && !env.noTopo) = true then { v with refreshReq := v.refreshReq + 1 } else v).down := by
+      split <;> exact ho
+    split
+    · exact h1
+    · exact down_foldl_status env _ o _ h1
+  | up a => simp only [applyV]; rw [down_nodeUp]; exact ho
+  | down a => exact down_nodeDown env v a o ho
+  | connected id =>
+    simp only [applyV, View.connected]
+    cases hl : lookup v.pools id with
+    | none => exact ho
+    | some h =>
+      have hne : o ≠ h.obj := fun e => hc ⟨h, hl, e.symm⟩
+      have : o ∈ v.down.filter (· != h.obj) := List.mem_filter.mpr ⟨ho, by simpa using hne⟩
+      dsimp only
+      split <;> exact this
+  | connectFailed id =>
+    simp only [applyV, View.connectFailed]
+    split
+    · exact ho
+    · exact down_nodeDown env v _ o ho
+  | refresh rep =>
+    exact refreshV_preserves env (fun w => o ∈ w.down) (fun _ _ hp _ => hp) (fun _ _ hp => hp) v ho rep
+  | removeHost id =>
+    simp only [applyV]
+    split <;> exact ho
+  | addInitial h =>
+    simp only [applyV, View.addInitial]
+    split <;> exact ho
+
+/-- `C16_down_not_offered`. A DOWN event for the address of a known host `h` that the filter accepts:
+immediately its object is marked down, its pool is gone and it is in none of the fallback policy's lists;
+and after ANY further history of events, refreshes, removals, connects of OTHER hosts and connect
+failures — as long as no connect of this host object succeeds — no reference to this object is offered
+for queries. -/
+theorem C16_down_not_offered (env : Env) (v : View) (ha : Agree env v) (a : Nat) (h : RHost)
+    (hg : v.ring.getHostByIP a = (some h, true)) (hf : env.filter h = false) :
+    let v' := v.nodeDown env a
+    (h.obj ∈ v'.down ∧ hasKey v'.pools h.id = false ∧ h ∉ v'.pol.loc ∧ h ∉ v'.pol.rem) ∧
+    ∀ ops, NoConnect env h.obj v' ops → ∀ x, x.obj = h.obj → ¬ offered (runV env v' ops) x := by
+  intro v'
+  have hv' : v' = { v with down := h.obj :: v.down.filter (· != h.obj), pol := v.pol.dn env h, pools := erase v.pools h.id } := by
+    simp only [v', View.nodeDown, hg, hf, Bool.false_eq_true, ↓reduceIte]
+  have hd : h.obj ∈ v'.down := by rw [hv']; exact List.mem_cons_self
+  refine ⟨⟨hd, ?_, ?_, ?_⟩, ?_⟩
+  · rw [hv']
+    cases hk : hasKey (erase v.pools h.id) h.id with
+    | false => rfl
+    | true => exact absurd rfl ((hasKey_erase _ _ _).mp hk).2
+  · rw [hv']
+    show h ∉ (v.pol.fbRemove env h).loc
+    rw [fbRemove_loc]
+    cases hl : env.isLocal h with
+    | true => simp only [↓reduceIte]; intro hm; exact ((mem_cowRemove _ _ _).mp hm).2 rfl
+    | false =>
+      simp only [Bool.false_eq_true, ↓reduceIte]
+      intro hm
+      have := ha.placed.2.1 h hm
+      rw [hl] at this; cases this
+  · rw [hv']
+    show h ∉ (v.pol.fbRemove env h).rem
+    rw [fbRemove_rem]
+    cases hl : env.isLocal h with
+    | true =>
+      simp only [↓reduceIte]
+      intro hm
+      have := ha.placed.2.2 h hm
+      rw [hl] at this; cases this
+    | false => simp only [Bool.false_eq_true, ↓reduceIte]; intro hm; exact ((mem_cowRemove _ _ _).mp hm).2 rfl
+  · intro ops
+    have : ∀ (ops : List VOp) (w : View), h.obj ∈ w.down → NoConnect env h.obj w ops → h.obj ∈ (runV env w ops).down := by
+      intro ops
+      induction ops with
+      | nil => intro w hw _; exact hw
+      | cons op t ih =>
+        intro w hw hn
+        simp only [runV, List.foldl_cons]
+        exact ih _ (down_applyV env w op h.obj hw hn.1) hn.2
+    intro hn x hx hoff
+    exact hoff.2.1 (by rw [hx]; exact this ops v' hd hn)
+
+/-- non-vacuity: DOWN, then UP (pool and policy entry come back) — still not offered; offered after the connect -/
+example :
+    let env : Env := ⟨fun _ => false, fun _ => true, false, false, false⟩
+    let h : RHost := ⟨1, 1, 7, 7⟩
+    let v := View.empty.addInitial env h
+    let w := runV env (v.nodeDown env 7) [.up 7]
+    h ∈ w.pol.all ∧ hasKey w.pools 1 = true ∧ w.down = [1] ∧ (w.connected env 1).down = [] := by decide
+
+/-! ### refresh requests: an UP for an unknown address asks for a refresh; bursts ask for few -/
+
+/-- `C16_unknown_up_requests_refresh`: `handleNodeUp` for an address the ring does not know requests a ring
+refresh and changes nothing else -/
+theorem C16_unknown_up_requests_refresh (env : Env) (v : View) (a : Nat) (x : Option RHost)
+    (hg : v.ring.getHostByIP a = (x, false)) : v.nodeUp env a = { v with refreshReq := v.refreshReq + 1 } := by
+  unfold View.nodeUp; rw [hg]
+
+/-- the number of refresh requests of a batch, exactly: one for any number of topology events (unless
+disabled) plus one per address whose LAST status is UP and which the ring does not know -/
+theorem handleBatch_refreshReq (env : Env) (v : View) (b : List Ev) (ha : Agree env v) (hc : v.crashed = false) :
+    (v.handleBatch env b).refreshReq =
+      v.refreshReq + (if (hasTopology b && !env.noTopo) = true then 1 else 0) +
+        (if env.noStatus = true then 0 else ((coalesce b).filter (unknownUp v.ring)).length) := by
+  unfold View.handleBatch View.dispatch
+  dsimp only
+  have hr := dispatch_pre_ring env v (hasTopology b)
+  have hq : (if (hasTopology b && !env.noTopo) = true then { v with refreshReq := v.refreshReq + 1 } else v).refreshReq =
+      v.refreshReq + (if (hasTopology b && !env.noTopo) = true then 1 else 0) := by
+    split <;> rfl
+  have hcr : (if (hasTopology b && !env.noTopo) = true then { v with refreshReq := v.refreshReq + 1 } else v).crashed = false := by
+    split <;> exact hc
+  generalize (if (hasTopology b && !env.noTopo) = true then { v with refreshReq := v.refreshReq + 1 } else v) = v1 at hr hq hcr ⊢
+  split
+  · rw [hq]; omega
+  · rw [foldl_status_eq]
+    have := foldl_req_eq env ((coalesce b).map (effectOf env v1.ring)) (by
+      intro f hf
+      obtain ⟨e, _, rfl⟩ := List.mem_map.mp hf
+      exact effectOf_noCrash env v1.ring (by rw [hr]; exact ha.sinv) e) v1 hcr
+    rw [this.1, reqSum_effects, hq, hr]
+
+/-- `C16_events_bounded_refreshes` (handler level), no hypothesis at all: a batch of ANY size requests at
+most 1 + (number of distinct addresses whose last status is UP and which the ring does not know) refreshes -/
+theorem C16_events_bounded_refreshes (env : Env) (v : View) (b : List Ev) :
+    (v.handleBatch env b).refreshReq ≤ v.refreshReq + 1 + ((coalesce b).filter (unknownUp v.ring)).length := by
+  unfold View.handleBatch View.dispatch
+  dsimp only
+  have hr := dispatch_pre_ring env v (hasTopology b)
+  have hq : (if (hasTopology b && !env.noTopo) = true then { v with refreshReq := v.refreshReq + 1 } else v).refreshReq ≤ v.refreshReq + 1 := by
+    split
+    · exact Nat.le_refl _
+    · exact Nat.le_succ _
+  generalize (if (hasTopology b && !env.noTopo) = true then { v with refreshReq := v.refreshReq + 1 } else v) = v1 at hr hq ⊢
+  split
+  · omega
+  · rw [foldl_status_eq]
+    have := foldl_req_le env ((coalesce b).map (effectOf env v1.ring)) v1
+    rw [reqSum_effects] at this
+    rw [hr] at this ⊢
+    omega
+
+/-- `C16_topology_one_refresh`: a batch of n ≥ 1 topology events (NEW_NODE / REMOVED_NODE / MOVED_NODE, any
+mixture) requests exactly one refresh and changes nothing else -/
+theorem C16_topology_one_refresh (env : Env) (v : View) (b : List Ev) (hb : ∀ e ∈ b, e = .topology) (hne : b ≠ [])
+    (ht : env.noTopo = false) : v.handleBatch env b = { v with refreshReq := v.refreshReq + 1 } := by
+  have hco : ∀ (m : List (Nat × Change)), b.foldl coalesceStep m = m := by
+    induction b with
+    | nil => intro m; rfl
+    | cons e t ih =>
+      intro m
+      have he := hb e List.mem_cons_self
+      subst he
+      simp only [List.foldl_cons, coalesceStep]
+      by_cases htn : t = []
+      · subst htn; rfl
+      · exact ih (fun e he => hb e (List.mem_cons_of_mem _ he)) htn m
+  have htopo : hasTopology b = true := by
+    cases b with
+    | nil => exact absurd rfl hne
+    | cons e t =>
+      have he := hb e List.mem_cons_self
+      subst he
+      simp [hasTopology]
+  unfold View.handleBatch View.dispatch coalesce
+  rw [hco, htopo, ht]
+  simp only [Bool.not_false, Bool.and_self, ↓reduceIte, List.foldl_nil]
+  split <;> rfl
+
+/-- `C16_refresh_debounced` (the refresh debouncer, all interleavings of requests, timer and flusher; logical
+time): from ANY state of the debouncer, if every `debounce()` of the run happens within one interval of
+its start (and nobody calls `refreshNow()`), at most TWO refreshes are started in the whole run, however
+long it is and however many requests it contains; from a quiet state (timer not armed, nothing pending)
+at most ONE. -/
+theorem C16_refresh_debounced (I : Nat) (d : RDeb) (as : List RAct) (hr : ReqsBefore I (d.now + I) d as) :
+    (rrun I d as).refreshes ≤ d.refreshes + 2 ∧
+    (d.fired = false → d.nowPending = false → d.deadline = none → (rrun I d as).refreshes ≤ d.refreshes + 1) := by
+  have h := rrun_phi I (d.now + I) as d (Nat.le_refl _) hr
+  have h2 := phi_le_two (d.now + I) d
+  refine ⟨by omega, ?_⟩
+  intro hf hp hd
+  have : phi (d.now + I) d ≤ 1 := by
+    unfold phi early late
+    rw [hf, hp, hd]
+    simp only [Bool.or_self, Option.isSome_none, Bool.false_eq_true, ↓reduceIte]
+    split <;> omega
+  omega
+
+/-- non-vacuity: five requests in one interval, the timer fires once, one refresh -/
+example :
+    let as : List RAct := [.debounce, .tick, .debounce, .debounce, .tick, .debounce, .debounce, .tick, .tick, .tick, .tick, .wake, .done, .tick, .tick, .wake]
+    ReqsBefore 3 3 {} as ∧ (rrun 3 {} as).refreshes = 1 := by decide
+
 end C16
